@@ -10,7 +10,52 @@ import (
 // some blocks, skipping or returning empty outputs on the others), clock-only and params-only modules, stores of
 // several policies fed by maps / clock, maps reading stores in get and deltas mode, block indexes and filtered
 // modules; differing initial blocks. The last map is a good output module (OutputCandidates lists all maps).
+// genChainWorld: a chain of modules that depend on nothing but each other below one anchored map — the shape in
+// which a tier-2 job can do without the block source once the anchored map's outputs are cached: the dependents
+// then see exactly what the cache holds (present-but-empty outputs, skipped outputs).
+func genChainWorld(r *common.Rng) *World {
+	w := &World{}
+	m0 := ModSpec{Name: "m0", Kind: "map", FailAt: -1, Every: uint64(r.Range(2, 3)), SkipEmpty: r.Chance(1, 3), Init: uint64(r.Range(0, 8))}
+	m0.Rem = uint64(r.Intn(int(m0.Every)))
+	m0.Inputs = []InputSpec{{Kind: []string{"source", "source", "clock"}[r.Intn(3)]}}
+	w.Mods = append(w.Mods, m0)
+	prevMap, prevStore := "m0", ""
+	maxInit := m0.Init
+	n := r.Range(1, 4)
+	for i := 1; i <= n; i++ {
+		init := maxInit
+		if r.Chance(1, 3) {
+			init += uint64(r.Range(1, 6))
+		}
+		if (i == n || r.Bool()) || prevStore != "" {
+			m := ModSpec{Name: fmt.Sprintf("m%d", i), Kind: "map", FailAt: -1, Every: uint64(r.Range(1, 2)), SkipEmpty: r.Chance(1, 2), Init: init}
+			m.Rem = uint64(r.Intn(int(m.Every)))
+			m.Inputs = []InputSpec{{Kind: "map", Ref: prevMap}}
+			if prevStore != "" {
+				m.Inputs = append(m.Inputs, InputSpec{Kind: []string{"get", "deltas"}[r.Intn(2)], Ref: prevStore})
+				if r.Bool() {
+					m.Inputs = m.Inputs[1:]
+				}
+				prevStore = ""
+			}
+			w.Mods = append(w.Mods, m)
+			prevMap = m.Name
+		} else {
+			m := ModSpec{Name: fmt.Sprintf("s%d", i), Kind: "store", FailAt: -1, Every: 1, Init: init, Policy: "add", VT: "int64"}
+			m.Inputs = []InputSpec{{Kind: "map", Ref: prevMap}}
+			m.Ops = []OpTmpl{{Kind: "sum", Ord: 1, KeyBase: "cnt", ValMul: 0, ValAdd: 1, Mod: 1}, {Kind: "sum", Ord: 2, KeyBase: "k", KeyMod: 3, ValMul: 1, ValAdd: 0, Mod: uint64(r.Range(1, 2))}}
+			w.Mods = append(w.Mods, m)
+			prevStore = m.Name
+		}
+		maxInit = init
+	}
+	return w
+}
+
 func GenWorld(r *common.Rng) *World {
+	if r.Chance(1, 5) {
+		return genChainWorld(r)
+	}
 	w := &World{}
 	var maps, stores, indexes []int
 	n := r.Range(2, 7)
@@ -213,6 +258,40 @@ func (w *World) Maps() []string {
 	for _, m := range w.Mods {
 		if m.Kind == "map" {
 			out = append(out, m.Name)
+		}
+	}
+	return out
+}
+
+// MapAncestors: the map modules the module `name` depends on, directly or not (nearest first, without `name`).
+func (w *World) MapAncestors(name string) []string {
+	var out []string
+	seen := map[string]bool{name: true}
+	queue := []string{name}
+	for len(queue) > 0 {
+		m := w.Mod(queue[0])
+		queue = queue[1:]
+		if m == nil {
+			continue
+		}
+		refs := []string{}
+		for _, in := range m.Inputs {
+			if in.Kind == "map" || in.Kind == "get" || in.Kind == "deltas" {
+				refs = append(refs, in.Ref)
+			}
+		}
+		if m.FilterMod != "" {
+			refs = append(refs, m.FilterMod)
+		}
+		for _, r := range refs {
+			if seen[r] {
+				continue
+			}
+			seen[r] = true
+			queue = append(queue, r)
+			if d := w.Mod(r); d != nil && d.Kind == "map" {
+				out = append(out, r)
+			}
 		}
 	}
 	return out
